@@ -1,8 +1,12 @@
 package props
 
 import (
+	"bytes"
+	"errors"
 	"io"
 	"math/big"
+	"runtime/pprof"
+	"sort"
 	"strings"
 	"sync"
 	"time"
@@ -74,25 +78,107 @@ type partyResult struct {
 	pan *vrt.PanicInfo
 }
 
+// errDeadlock is the result of a party that was still parked when runPair
+// positively observed a quiescent deadlock of the session.
+var errDeadlock = errors.New("harness: quiescent deadlock (all party goroutines parked, unchanged across two dumps)")
+
 // runPair runs the two parties concurrently; when one returns its side of the
 // transport is closed (flushing first), so the peer cannot block for ever on
-// a dead partner.
+// a dead partner. If neither progress nor completion is seen for 20 s, two
+// goroutine dumps 3 s apart are compared: when every party goroutine of the
+// process is parked in a channel/condition/IO wait in both, with identical
+// headers, the session is a deadlock - the transports are torn down, parties
+// still parked get errDeadlock and their goroutines are abandoned.
 func runPair(d *duplex, fa, fb func() error) (ra, rb partyResult) {
-	var wg sync.WaitGroup
-	wg.Add(2)
-	go func() {
-		defer wg.Done()
-		ra.pan = vrt.Guard(func() { ra.err = fa() })
-		d.doneA()
-	}()
-	go func() {
-		defer wg.Done()
-		rb.pan = vrt.Guard(func() { rb.err = fb() })
-		d.doneB()
-	}()
-	wg.Wait()
+	var mu sync.Mutex
+	var fin [2]bool
+	done := make(chan struct{}, 2)
+	run := func(i int, f func() error, res *partyResult, closeSide func()) {
+		var r partyResult
+		r.pan = vrt.Guard(func() { r.err = f() })
+		mu.Lock()
+		if !fin[i] {
+			*res, fin[i] = r, true
+		}
+		mu.Unlock()
+		closeSide()
+		done <- struct{}{}
+	}
+	go run(0, fa, &ra, d.doneA)
+	go run(1, fb, &rb, d.doneB)
+	left, idle := 2, 0
+	prev := ""
+	for left > 0 {
+		select {
+		case <-done:
+			left--
+			idle = 0
+		case <-time.After(time.Second):
+			idle++
+			if idle < 20 {
+				continue
+			}
+			var b1, b2 bytes.Buffer
+			pprof.Lookup("goroutine").WriteTo(&b1, 2)
+			h1, q1 := partyHeaders(b1.String())
+			if !q1 {
+				idle = 10
+				continue
+			}
+			if prev == "" || prev != h1 {
+				prev = h1
+				idle = 17 // look again in 3 s
+				continue
+			}
+			pprof.Lookup("goroutine").WriteTo(&b2, 2)
+			if h2, q2 := partyHeaders(b2.String()); !q2 || h2 != h1 {
+				prev, idle = "", 10
+				continue
+			}
+			mu.Lock()
+			if !fin[0] {
+				ra, fin[0] = partyResult{err: errDeadlock}, true
+			}
+			if !fin[1] {
+				rb, fin[1] = partyResult{err: errDeadlock}, true
+			}
+			mu.Unlock()
+			left = 0
+		}
+	}
 	d.finish()
 	return
+}
+
+// partyHeaders extracts the header lines of all goroutines that run a party
+// function of runPair and tells whether all of them are parked.
+func partyHeaders(dump string) (string, bool) {
+	var hs []string
+	for _, g := range strings.Split(dump, "\n\n") {
+		if !strings.Contains(g, "props.runPair.func") {
+			continue
+		}
+		head := g
+		if i := strings.IndexByte(g, '\n'); i > 0 {
+			head = g[:i]
+		}
+		parked := false
+		for _, st := range []string{"sync.Cond.Wait", "IO wait", "chan receive", "chan send", "select", "semacquire", "sync.WaitGroup.Wait", "sync.Mutex.Lock"} {
+			if strings.Contains(head, st) {
+				parked = true
+			}
+		}
+		if !parked {
+			return "", false
+		}
+		// goroutine id and state without the minutes counter
+		if i := strings.Index(head, ","); i > 0 {
+			head = head[:i]
+		}
+		hs = append(hs, head)
+	}
+	sort.Strings(hs)
+	return strings.Join(hs, "|"), len(hs) > 0
 }
 
 // ---- two-party garbled-circuit sessions ------------------------------------
